@@ -192,6 +192,11 @@ func (p *Conn) checkProxyHeader() error {
 		return err
 	}
 
+	// LOCAL command (v2) / UNKNOWN protocol (v1): keep the real socket addresses
+	if hdr.Command.IsLocal() || hdr.TransportProtocol == UNSPEC {
+		return nil
+	}
+
 	// initial real src/dst address
 	srcAddr := net.JoinHostPort(hdr.SourceAddress.String(), fmt.Sprintf("%d", hdr.SourcePort))
 	p.srcAddr, err = net.ResolveTCPAddr(hdr.TransportProtocol.String(), srcAddr)
